@@ -171,9 +171,9 @@ theorem dict_doc {rec : Ty → Ty → Answer} (hrec : RecDoc cfg rec) {src dst :
       cases hk2
       exact doc_notAsIs (by decide) (.dict (hrec _ _ _ hkc).1 (hrec _ _ _ hvc).1)
 
-theorem planFields_doc {rec : Ty → Ty → Answer} (hrec : RecDoc cfg rec) {sfs : List Field} :
+theorem planFields_doc {rec : Ty → Ty → Answer} (hrec : RecDoc cfg rec) {dc : Nat} {sfs : List Field} :
     ∀ (ds : List Field) (plan : List FieldPlan),
-      planFields rec cfg.policy sfs ds = some (some plan) → ∀ d ∈ ds, FieldCoercible cfg sfs d
+      planFields rec (cfg.policy.allowed dc) sfs ds = some (some plan) → ∀ d ∈ ds, FieldCoercible cfg dc sfs d
   | [], _, _ => by intro d hd; cases hd
   | d :: ds, plan, h => by
     unfold planFields at h
